@@ -140,6 +140,17 @@ let () =
       | mode :: cap :: inp -> Some (show_tresult (translate_ref !e_table (z_of_int mode) (List.map z_of_int inp) (z_of_int cap)))
       | _ -> failwith "TR")
 
+(* ---- scratch-buffer plan: AP exact kind srcmax destmax -> elements *)
+let () =
+  reg "AP" (fun ws -> match ints ws with
+      | [ ex; kind; s; d ] ->
+        let f = (match kind with
+            | 0 -> size_typebuf | 1 -> size_wordBuffer | 2 -> size_emphasisBuffer | 3 -> size_destSpacing
+            | 4 -> size_passbuf | 5 -> size_posMapping1 | 6 -> size_posMapping2 | 7 -> size_posMapping3
+            | _ -> failwith "AP kind") in
+        Some ("A " ^ string_of_int (int_of_z (provided f (ex = 1) (z_of_int s) (z_of_int d))))
+      | _ -> failwith "AP")
+
 (* ---- log model: LR S <l> ; R <k> ; E <lvl> <c...> ; ... *)
 let () =
   reg "LR" (fun ws ->
